@@ -24,7 +24,9 @@ Theorem C09_source_facts :
   command_create_from_value = true /\ command_call_marks_optional = true /\ command_own_properties = true /\
   mixins_no_mutable_class_attribute = true /\ register_input_creates_instance_dict_first = true /\
   properties_collected_along_reversed_mro = true /\ bare_value_override_copies_property_unconditionally = true /\
-  hasproperties_init_presets_values = true /\ module_init_configures_properties_on_instance = true.
+  hasproperties_init_presets_values = true /\ module_init_configures_properties_on_instance = true /\
+  arrayof_getproperties_builds_new_dict = true /\ add_accessible_only_reads_cfg = true /\
+  get_module_instance_copies_options = true.
 Proof. repeat split; reflexivity. Qed.
 
 (* (1) FULL STRENGTH.  An instance is changed only by the ops addressed to it: whatever else happens -- class
